@@ -98,7 +98,7 @@ REQUIRED_THEOREMS = [
     # interrupted / saved / resumed runs, step() prefixes (AcnProofs/C05.lean, AcnProofs/C05Resume.lean)
     "Acn.C05.resume_invoked_record", "Acn.C05.resume_invoked_iff", "Acn.C05.step_pass_contract", "Acn.C05.step_loop_test",
     "Acn.C05.step_exactly_one_period", "Acn.C05.step_then_run_invoked",
-    "Acn.C05.resume_sim_is_core", "Acn.C05.resume_invoked_sim", "Acn.C05.json_resume_invoked",
+    "Acn.C05.resume_sim_is_core", "Acn.C05.resume_invoked_sim", "Acn.C05.json_resume_invoked", "Acn.C05.resume_views_true",
 ]
 BUDGET = {"quick": 350, "thorough": 4000, "search": 1200}
 TRUSTED = ["copy.deepcopy / numpy array copy semantics (the isolation half is validated by the vandalising "
@@ -2213,7 +2213,9 @@ def exhaustive():
     slots = [(st, a, d) for st in ("S0", "S1") for a in range(0, 5) for d in range(a + 1, 6)]
     recsets = [[], [0], [2], [5], [6], [1, 3], [4, 4], [2, 7]]
     othsets = [[0], [2], [5], [7], [1, 3], [4, 4], [3]]
-    sched = {"type": "scripted", "default": [["S0", [16.0]], ["S1", [8.0, 8.0]]], "script": []}
+    # (all rows of one length: a ragged schedule is rejected with InvalidScheduleError and would end every one of these
+    #  runs at its first invocation — as the first version of this enumeration did)
+    sched = {"type": "scripted", "default": [["S0", [16.0, 16.0]], ["S1", [8.0, 8.0]]], "script": []}
     stations = [_basic(0), _basic(1, {"t": "finite", "rates": [8, 16, 24, 32]})]
     out = []
     k = 0
